@@ -1,6 +1,209 @@
+import Proofs.C03.Codec
+import Proofs.C03.BatchThm
+import Proofs.C03.Toy
 /-!
-# C03 — property theorems only (see DESIGN.md §3 C03).
+# C03 — BIP340 Schnorr: sign, verify and batch-verify agree with the BIP
+
+Property theorems only.  The scheme (`Model/C03/Schnorr.lean`, `Batch.lean`) is a transcription of
+btclib's `ssa.py` / `bip340_nonce.py` / `commit_nonce.py` over an abstract group interface
+`o : GroupOps α`; every theorem holds for EVERY lawful group (`L : Lawful o G`: prime order `n`,
+x-coordinate identifying `±P`, y-parity flipping under negation, `lift_x`), every tagged-hash function
+`prm.TH`, every byte size, every message of any length, every key, every aux.  That the executable
+instance `Btc.EC.ops c` used by the driver is lawful is property C01's claim, a named hypothesis here.
+The tags and `int_from_bits` are the translated source (`Gen.Schnorr`).  Retry loops carry explicit
+fuel: "sign returns `ok`" is a hypothesis, never a conclusion.
 -/
 namespace Props.C03
+open Btc Btc.Schnorr
+
+variable {α G : Type} [AddCommGroup G] {o : GroupOps α}
+
+/-- T1 `sign_verifies`: whatever `sign_` returns — for any key `q`, message, aux, tagged hash, fuel —
+    verifies under the signer's x-only public key `x(q•G)`. -/
+theorem sign_verifies (L : Lawful o G) (prm : Params) (fuel : Nat) (msg : Bytes) (q : Int) (aux : Bytes)
+    (sg : Sig) (h : sign o prm fuel msg q aux = .ok sg) :
+    verify o prm msg (o.x (o.mul q o.gen)) sg = true :=
+  (verify_eq_true_iff prm _ _ _).2 (Btc.Schnorr.sign_verifies L prm L.ycongr fuel msg q aux sg h)
+
+/-- T1': the self-check inside `sign_(verify=True)` never fires: both spellings answer alike on every
+    input (same signature, same refusal). -/
+theorem signChecked_eq_sign (L : Lawful o G) (prm : Params) (fuel : Nat) (msg : Bytes) (q : Int) (aux : Bytes) :
+    signChecked o prm fuel msg q aux = sign o prm fuel msg q aux :=
+  Btc.Schnorr.signChecked_eq_sign L prm L.ycongr fuel msg q aux
+
+/-- T2 `verify_iff`: on every integer triple `(x_Q, r, s)` and every message, `verify_` answers true
+    exactly when BIP340's Verify does: `r` a field element, `s` below the order, `x_Q` lifts to a point
+    `Q`, and `K = s•G − e•Q` is not infinite, has even y and `x(K) = r` — plus btclib's refusal of a
+    zero challenge (`e ≠ 0`; never the case on secp256k1 short of a hash preimage of 0 mod n). -/
+theorem verify_iff (L : Lawful o G) (prm : Params) (msg : Bytes) (xQ : Int) (sg : Sig) :
+    verify o prm msg xQ sg = true ↔
+      0 ≤ sg.r ∧ sg.r < o.p ∧ 0 ≤ sg.s ∧ sg.s < o.n ∧
+      ∃ Q, o.liftX xQ = some Q ∧
+        challengeInt o prm msg xQ sg.r ≠ 0 ∧
+        o.isZero (o.sub (o.mul sg.s o.gen) (o.mul (challengeInt o prm msg xQ sg.r) Q)) = false ∧
+        o.hasEvenY (o.sub (o.mul sg.s o.gen) (o.mul (challengeInt o prm msg xQ sg.r) Q)) = true ∧
+        o.x (o.sub (o.mul sg.s o.gen) (o.mul (challengeInt o prm msg xQ sg.r) Q)) = sg.r :=
+  Btc.Schnorr.verify_iff L prm L.ycongr msg xQ sg
+
+/-- T2 corollary: `r ≥ p`, `s ≥ n`, negative values and an `x_Q` that is no x-coordinate are refused. -/
+theorem verify_refuses (L : Lawful o G) (prm : Params) (msg : Bytes) (xQ : Int) (sg : Sig)
+    (h : sg.r < 0 ∨ o.p ≤ sg.r ∨ sg.s < 0 ∨ o.n ≤ sg.s ∨ o.liftX xQ = none) :
+    verify o prm msg xQ sg = false := by
+  cases hv : verify o prm msg xQ sg with
+  | false => rfl
+  | true =>
+    obtain ⟨h1, h2, h3, h4, Q, hQ, _⟩ := (verify_iff L prm msg xQ sg).1 hv
+    rcases h with h | h | h | h | h
+    · omega
+    · omega
+    · omega
+    · omega
+    · rw [h] at hQ; cases hQ
+
+/-- T6 `gen_keys`: the returned private key is in `1..n-1`, its point has even y and the returned
+    x-coordinate, and that x-only key lifts back to exactly this point. -/
+theorem genKeys_spec (L : Lawful o G) (q q' x : Int) (h : genKeys o q = .ok (q', x)) :
+    0 < q' ∧ q' < o.n ∧ o.hasEvenY (o.mul q' o.gen) = true ∧ o.x (o.mul q' o.gen) = x ∧
+    ∃ Q, o.liftX x = some Q ∧ L.abs Q = q' • L.abs o.gen :=
+  Btc.Schnorr.genKeys_spec L L.ycongr q q' x h
+
+/-- (c) sign-to-contract: a signature made with a commitment verifies as an ordinary BIP340 signature
+    under the signer's key, the commitment opens with the returned receipt
+    (`x(R + H(R‖commit)•G) = r`), and the receipt is the even-y point. -/
+theorem signCommit_verifies (L : Lawful o G) (prm : Params) (fuel : Nat) (msg : Bytes) (q : Int)
+    (aux commitHash : Bytes) (sg : Sig) (R : α)
+    (h : signCommit o prm fuel msg q aux commitHash = .ok (sg, R)) :
+    verifyCommit o prm fuel msg (o.x (o.mul q o.gen)) sg commitHash R = true ∧ o.hasEvenY R = true := by
+  obtain ⟨h1, h2, h3⟩ := Btc.Schnorr.signCommit_verifies L prm L.ycongr fuel msg q aux commitHash sg R h
+  refine ⟨?_, h3⟩
+  have hv : sigValid o sg = .ok () := by
+    unfold assertAsValid at h1
+    cases hs : sigValid o sg with
+    | ok u => rfl
+    | error e => rw [hs] at h1; cases h1
+  unfold verifyCommit
+  rw [hv, h2]
+  exact (verify_eq_true_iff prm _ _ _).2 h1
+
+/-! ## the fixed-size codec (T5) — no group law needed -/
+
+/-- T5a: `Sig.parse (Sig.serialize sig) = sig` whenever serialization is accepted (sizes as on
+    secp256k1: `p_size + n_size = _REQUIRED_LENGTH`, `p ≤ 256^p_size`, `n ≤ 256^n_size`). -/
+theorem parse_serialize (prm : Params)
+    (hsz : prm.pSize + prm.nSize = Gen.Schnorr.REQUIRED_LENGTH)
+    (hp : o.p ≤ 256 ^ prm.pSize) (hn : o.n ≤ 256 ^ prm.nSize)
+    (sg : Sig) (b : Bytes) (h : serialize o prm sg = .ok b) : parse o prm b = .ok sg :=
+  Btc.Schnorr.parse_serialize prm hsz hp hn sg b h
+
+/-- T5b: whatever `Sig.parse` accepts is exactly `_REQUIRED_LENGTH` octets, re-serializes to the same
+    octets, and has `0 ≤ r < p`, `0 ≤ s < n`: an encoding of `r ≥ p` or `s ≥ n`, or of any other length,
+    is refused. -/
+theorem serialize_parse (prm : Params)
+    (hsz : prm.pSize + prm.nSize = Gen.Schnorr.REQUIRED_LENGTH)
+    (b : Bytes) (sg : Sig) (h : parse o prm b = .ok sg) :
+    serialize o prm sg = .ok b ∧ b.length = Gen.Schnorr.REQUIRED_LENGTH ∧
+    0 ≤ sg.r ∧ sg.r < o.p ∧ 0 ≤ sg.s ∧ sg.s < o.n :=
+  ⟨Btc.Schnorr.serialize_parse prm hsz b sg h, (parse_ok prm b sg h).1,
+   sigValid_range sg (parse_ok prm b sg h).2.1⟩
+
+/-- the sizes `Sig.parse` reads (secp256k1's, regenerated from the source) add up to the length it
+    insists on -/
+theorem parse_sizes : Gen.Schnorr.PARSE_P_SIZE + Gen.Schnorr.PARSE_N_SIZE = Gen.Schnorr.REQUIRED_LENGTH := by
+  decide
+
+/-! ## batch verification (T3, T4); `coef i` is the random coefficient of member `i ≥ 1` -/
+
+/-- a batch of one is the single verification; an empty batch is refused -/
+theorem batch_small (prm : Params) (coef : Nat → Int) (it : Item) :
+    batchVerify o prm coef [it] = verify o prm it.msg it.xQ it.sg ∧ batchVerify o prm coef [] = false :=
+  ⟨rfl, rfl⟩
+
+/-- T3 completeness: if every member verifies on its own, the batch passes — for EVERY coefficient
+    function, any size ≥ 1, any order, duplicates included. -/
+theorem batch_complete (L : Lawful o G) (prm : Params) (coef : Nat → Int) (items : List Item)
+    (hne : items ≠ []) (hall : ∀ it ∈ items, verify o prm it.msg it.xQ it.sg = true) :
+    batchVerify o prm coef items = true :=
+  (batchVerify_eq_true_iff prm coef items).2 (Btc.Schnorr.batch_complete L prm coef items hne hall)
+
+/-- T4 exact linear form: for two or more members the batch passes iff every member passes the
+    per-member checks (`Sig.assert_valid`, `x_Q` a liftable field element, non-zero challenge) and
+    `Σ aᵢ•Dᵢ = 0` in the group, `Dᵢ = sᵢ•G − lift(rᵢ) − eᵢ•lift(x_Qᵢ)`, `a₀ = 1`. -/
+theorem batch_iff_linear (L : Lawful o G) (prm : Params) (coef : Nat → Int) (it0 it1 : Item) (rest : List Item) :
+    batchVerify o prm coef (it0 :: it1 :: rest) = true ↔
+      (∀ it ∈ it0 :: it1 :: rest, Structural (o := o) prm it) ∧
+      lin L prm coef 0 (it0 :: it1 :: rest) = 0 :=
+  (batchVerify_eq_true_iff prm coef _).trans (assertBatch_ok_iff L prm coef it0 it1 rest)
+
+/-- T4: `Dᵢ = 0` exactly when member `i` verifies on its own. -/
+theorem defect_zero_iff_verifies (L : Lawful o G) (prm : Params) (it : Item)
+    (hst : Structural (o := o) prm it) :
+    defect L prm it = 0 ↔ verify o prm it.msg it.xQ it.sg = true :=
+  defect_eq_zero_iff L prm L.ycongr it hst
+
+/-- T4 soundness, one bad member: if exactly one member (at any position `j`) fails on its own, the
+    batch FAILS whenever that member's coefficient is not a multiple of `n` — always for the first
+    member (coefficient 1) and always for coefficients drawn from `1..n-1` as the code draws them. -/
+theorem batch_one_bad_fails (L : Lawful o G) (prm : Params) (coef : Nat → Int) (it0 it1 : Item)
+    (rest : List Item) (j : Nat) (bad : Item)
+    (hj : (it0 :: it1 :: rest)[j]? = some bad)
+    (hbad : verify o prm bad.msg bad.xQ bad.sg = false)
+    (hothers : ∀ k it', (it0 :: it1 :: rest)[k]? = some it' → k ≠ j →
+      verify o prm it'.msg it'.xQ it'.sg = true)
+    (hcoef : j = 0 ∨ (0 < coef j ∧ coef j < o.n)) :
+    batchVerify o prm coef (it0 :: it1 :: rest) = false := by
+  cases hb : batchVerify o prm coef (it0 :: it1 :: rest) with
+  | false => rfl
+  | true =>
+    exfalso
+    refine Btc.Schnorr.batch_one_bad_fails L prm coef it0 it1 rest j bad hj hbad hothers ?_
+      ((batchVerify_eq_true_iff prm coef _).1 hb)
+    intro hdvd
+    rcases hcoef with rfl | ⟨h0, hn⟩
+    · have h1 : o.n ∣ 1 := by simpa [coefAt] using hdvd
+      have hp := L.n_prime
+      have : o.n = 1 := Int.eq_one_of_dvd_one (le_of_lt L.n_pos) h1
+      rw [this] at hp; exact absurd hp (by decide)
+    · have hj0 : j ≠ 0 ∨ j = 0 := by omega
+      rcases hj0 with hj0 | hj0
+      · have : o.n ∣ coef j := by simpa [coefAt, hj0] using hdvd
+        have := Int.le_of_dvd h0 this
+        omega
+      · subst hj0
+        have h1 : o.n ∣ 1 := by simpa [coefAt] using hdvd
+        have hp := L.n_prime
+        have : o.n = 1 := Int.eq_one_of_dvd_one (le_of_lt L.n_pos) h1
+        rw [this] at hp; exact absurd hp (by decide)
+
+/-- T4 soundness, any number of bad members, stated honestly: a batch containing a member `j ≥ 1` that
+    fails on its own can pass for AT MOST ONE value of `aⱼ` modulo `n` (the other coefficients held
+    fixed) — i.e. with probability at most `1/(n−1)` over the code's draw from `1..n-1`.  It is not
+    claimed (and is false) that such a batch never passes. -/
+theorem batch_at_most_one_coeff (L : Lawful o G) (prm : Params) (coef coef' : Nat → Int) (it0 it1 : Item)
+    (rest : List Item) (j : Nat) (bad : Item) (hj1 : 1 ≤ j)
+    (hj : (it0 :: it1 :: rest)[j]? = some bad)
+    (hbad : verify o prm bad.msg bad.xQ bad.sg = false)
+    (hagree : ∀ i, i ≠ j → coef i = coef' i)
+    (h1 : batchVerify o prm coef (it0 :: it1 :: rest) = true)
+    (h2 : batchVerify o prm coef' (it0 :: it1 :: rest) = true) :
+    o.n ∣ coef j - coef' j :=
+  Btc.Schnorr.batch_at_most_one_coeff L prm coef coef' it0 it1 rest j bad hj1 hj hbad hagree
+    ((batchVerify_eq_true_iff prm coef _).1 h1) ((batchVerify_eq_true_iff prm coef' _).1 h2)
+
+/-! ## non-vacuity: the hypotheses are met by a concrete group, and by concrete values on it -/
+
+/-- `Lawful` is inhabited (cyclic group of order 7 with an x-only structure) -/
+example : Lawful Toy.ops (ZMod 7) := Toy.lawful
+example : sign Toy.ops Toy.prm 5 [1, 2] 3 [0] = .ok ⟨1, 4⟩ := by decide
+example : verify Toy.ops Toy.prm [1, 2] 2 ⟨1, 4⟩ = true := by decide
+example : verify Toy.ops Toy.prm [1, 2] 2 ⟨1, 5⟩ = false := by decide
+example : genKeys Toy.ops 3 = .ok (4, 2) := by decide
+example : signCommit Toy.ops Toy.prm 5 [1] 3 [0] [9] = .ok (⟨1, 4⟩, 6) := by decide
+example : serialize Toy.ops Toy.prm ⟨1, 4⟩ = .ok [1, 4] := by decide
+example : batchVerify Toy.ops Toy.prm (fun _ => 5) [⟨[1, 2], 2, ⟨1, 4⟩⟩, ⟨[], 2, ⟨1, 4⟩⟩] = true := by decide
+example : batchVerify Toy.ops Toy.prm (fun _ => 5) [⟨[1, 2], 2, ⟨1, 4⟩⟩, ⟨[], 2, ⟨1, 5⟩⟩] = false := by decide
+/-- the tags the theorems are about are BIP340's -/
+example : Gen.Schnorr.TAG_AUX.map (fun b => Char.ofNat b.toNat) = "BIP0340/aux".toList ∧
+    Gen.Schnorr.TAG_NONCE.map (fun b => Char.ofNat b.toNat) = "BIP0340/nonce".toList ∧
+    Gen.Schnorr.TAG_CHALLENGE.map (fun b => Char.ofNat b.toNat) = "BIP0340/challenge".toList := by decide
 
 end Props.C03
